@@ -553,6 +553,14 @@ def _uci(fn):
 CHECKS.update({"C07": _uci("check_uci"), "C18": _uci("check_uci"), "C14": _uci("check_c14")})
 
 
+def _book(pid, tier, seed):
+    import bookcheck
+    bookcheck.check_book(pid, tier, seed)
+
+
+CHECKS["C16"] = _book
+
+
 def main():
     ap = argparse.ArgumentParser()
     ap.add_argument("pid")
